@@ -494,7 +494,9 @@ func (s *scope) lookupName(name unistring.String) (binding *binding, noDynamics 
 		if curScope.dynamic {
 			noDynamics = false
 		}
-		if name == "arguments" && curScope.funcType != funcNone && curScope.funcType != funcArrow {
+		// (the variable scope of strict eval code carries the type of the calling function, but 'arguments'
+		// there is the caller's object, found by dynamic lookup, not a new binding of the eval code)
+		if name == "arguments" && curScope.funcType != funcNone && curScope.funcType != funcArrow && !curScope.variable {
 			if curScope.funcType == funcClsInit {
 				s.c.throwSyntaxError(0, "'arguments' is not allowed in class field initializer or static initialization block")
 			}
